@@ -170,7 +170,13 @@ mod int {
 
     pub(crate) fn rem(dividend: VmInt, divisor: VmInt) -> RuntimeResult<VmInt, String> {
         if divisor != 0 {
-            RuntimeResult::Return(dividend % divisor)
+            match dividend.checked_rem(divisor) {
+                Some(rem) => RuntimeResult::Return(rem),
+                None => RuntimeResult::Panic(format!(
+                    "attempted to calculate remainder of {} divided by {} with overflow",
+                    dividend, divisor
+                )),
+            }
         } else {
             RuntimeResult::Panic(format!(
                 "attempted to calculate remainder of {} divided by 0",
@@ -181,7 +187,13 @@ mod int {
 
     pub(crate) fn rem_euclid(dividend: VmInt, divisor: VmInt) -> RuntimeResult<VmInt, String> {
         if divisor != 0 {
-            RuntimeResult::Return(dividend.rem_euclid(divisor))
+            match dividend.checked_rem_euclid(divisor) {
+                Some(rem) => RuntimeResult::Return(rem),
+                None => RuntimeResult::Panic(format!(
+                    "attempted to calculate euclidean remainder of {} divided by {} with overflow",
+                    dividend, divisor
+                )),
+            }
         } else {
             RuntimeResult::Panic(format!(
                 "attempted to calculate euclidean remainder of {} divided by 0",
@@ -325,7 +337,12 @@ mod string {
     }
 
     pub fn slice(s: &str, start: usize, end: usize) -> RuntimeResult<&str, String> {
-        if s.is_char_boundary(start) && s.is_char_boundary(end) {
+        if start > end {
+            RuntimeResult::Panic(format!(
+                "slice index starts at {} but ends at {}",
+                start, end
+            ))
+        } else if s.is_char_boundary(start) && s.is_char_boundary(end) {
             RuntimeResult::Return(&s[start..end])
         } else {
             // Limit the amount of characters to print in the error message
